@@ -33,6 +33,7 @@ def normalise(prog):
         n.setdefault('delay', None)
         n.setdefault('exceptions', None)
         n.setdefault('use_default', False)
+        n.setdefault('generic', False)
         for i, p in enumerate(n['params']):
             if p['kind'] == 'switch':
                 p.setdefault('name', 'sw_%s_%s' % (n['id'], p['kw']))
@@ -41,6 +42,7 @@ def normalise(prog):
         r.setdefault('input', {'x': 'tokA'})
         r.setdefault('plan', {})
         r.setdefault('recreq', {})
+        r.setdefault('recfalsy', [])
     prog.setdefault('collab', {})
     return prog
 
@@ -130,6 +132,16 @@ def build_classes(prog, rt):
         if n['use_default']:
             attrs['use_default'] = True
         base = RecurrentProcessor if nid in dests else ProcessorBase
+        if n.get('generic') and n['params']:
+            # declared the reusable way: a generic basic node bound to its dependencies by build_node
+            from ml_pipeline_engine.node import build_node
+            gattrs = dict(attrs)
+            gattrs['name'] = 'g_' + nid
+            gproc = gattrs['process']
+            gproc.__annotations__ = {}
+            gbase = type('G_' + nid, (base,), gattrs)
+            classes[nid] = build_node(gbase, node_name=nid, class_name='Generic' + nid, **ann)
+            continue
         classes[nid] = type('N_' + nid, (base,), attrs)
     return classes
 
@@ -309,6 +321,7 @@ def to_tla(prog):
             'input': [[k, ['s', v]] for k, v in inp],
             'plan': {i: [parse_outcome(o) for o in (r['plan'].get(i) or ['ok'])] for i in ids},
             'recreq': {i: int(r['recreq'].get(i, -1)) for i in ids},
+            'recfalsy': {i: i in r.get('recfalsy', ()) for i in ids},
         })
     byid = node_by_id(prog)
     rec_inside = set()
@@ -323,4 +336,5 @@ def to_tla(prog):
             'input': prog['input'], 'output': prog['output'], 'runs': runs, 'order': order,
             'has_switch': 'switch' in kinds, 'has_oneof': 'oneof' in kinds, 'has_rec': 'rec' in kinds,
             'plain': depth is not None, 'depth': depth if depth is not None else {i: -1 for i in ids},
-            'slack': slack, 'amb': is_ambiguous(prog), 'rec_inside': sorted(rec_inside) or ['-']}
+            'slack': slack, 'amb': is_ambiguous(prog), 'rec_inside': sorted(rec_inside) or ['-'],
+            'case_nodes': sorted({c for n in prog['nodes'] for q in n['params'] if q['kind'] == 'switch' for _, c in q['cases']}) or ['-']}
